@@ -293,6 +293,12 @@ class Replayer:
             objs = {"result": derived, "source": keep[0] if keep else None, "argument": self.last_other}
             if opname == "merge_in":
                 objs["source"] = None  # the result IS the source
+            elif mutated == "result":
+                for k in ("source", "argument"):
+                    if objs.get(k) is not None and objs[k] is derived:
+                        probs.append(f"{opname} returned its {k} itself instead of a new continuum (changing one changes both)")
+                if probs:
+                    return probs
             target = objs.get(mutated)
             if target is None:
                 continue
